@@ -36,7 +36,7 @@ UNITS = {
 PROPS = {
     'C15': {
         'units': ['builder', 'registry', 'encode', 'bytesio'],
-        'kani': [],
+        'kani': ['to_le_bytes_spec'],
         'scans': ['determinism'],
         'own': {'builder': r'MapBuilder|SetBuilder|Builder::(new|new_type|finish|into_inner|bytes_written|get_ref|insert|add)$', 'registry': r'Registry::hash|Registry::entry'},
         'level_text': 'Proof of delegation: MapBuilder::{new, insert, finish, into_inner, get_ref, bytes_written}, SetBuilder::{...} and '
@@ -52,7 +52,7 @@ PROPS = {
     },
     'C01': {
         'units': ['builder', 'encode', 'layout', 'decode', 'registry', 'bytesio', 'cw', 'stream', 'open'],
-        'kani': [],
+        'kani': ['read_le','unpack_le','to_le_bytes_spec','pack_roundtrip','common_tables','find_input_scan','seek_position'],
         'own': {'stream': r'StreamWithState::(new|seek_min|next_with)|Stream::|impl&%\\d+::(next|into_stream)|Output::',
                 'open': r'Fst::(new|len|is_empty|as_ref)|FstRef::(len|is_empty)', 'cw': r'.', 'registry': r'.'},
         'level_text': 'Proof, link by link: (1) every accepted insert/add extends the denotation of the builder (unfinished stack over the '
@@ -72,7 +72,7 @@ PROPS = {
     },
     'C09': {
         'units': ['encode', 'layout', 'decode', 'builder', 'bytesio'],
-        'kani': [],
+        'kani': ['read_le','unpack_le','to_le_bytes_spec','pack_roundtrip','common_tables'],
         'own': {'builder': r'Builder::(compile|compile_from|new_type|new|into_inner|insert_output)$'},
         'level_text': 'Proof: encoder and decoder are verified against one forward-layout specification written from the format description '
                       '(header 3 + type; the three node forms; state byte; sizes nibbles; reverse transition order; index iff more than 32 '
@@ -86,7 +86,7 @@ PROPS = {
     },
     'C02': {
         'units': ['reader', 'decode'],
-        'kani': [],
+        'kani': ['read_le','unpack_le','common_tables','find_input_scan'],
         'level_text': 'Proof: FstRef::get / contains_key (real bodies) and the Fst / Map / Set wrappers are verified to return exactly '
                       'lookup(root, key) over the decoded graph for every probe of every length (absent keys, prefixes, extensions, '
                       'divergence at any byte, the empty key are instances). The decoder - State::new, Node::new, all accessors of the three '
@@ -131,7 +131,7 @@ PROPS = {
     },
     'C03': {
         'units': ['stream'],
-        'kani': [],
+        'kani': ['seek_position'],
         'own': {'stream': r'Bound::|StreamBuilder|StreamWithState::(new|seek_min|next_with)|Stream::|impl&%\\d+::(next|into_stream)|Output::'},
         'level_text': 'Proof: StreamWithState::seek_min and next_with (real bodies) are verified against the depth-first listing of the '
                       'decoded graph: after seek_min exactly the entries >= / > the lower bound are outstanding; each next returns the first '
@@ -146,7 +146,7 @@ PROPS = {
     },
     'C04': {
         'units': ['stream', 'automaton'],
-        'kani': [],
+        'kani': ['seek_position'],
         'own': {'stream': r'StreamWithState::(new|seek_min|next_with)|Stream::|impl&%\\d+::(next|into_stream)', 'automaton': r'.'},
         'level_text': 'Proof: the stream contracts of C03 are stated for an arbitrary A: Automaton of which only the trait contract of C18 '
                       'is known (inv/denot/lang; can_match only has to be sound), so the result - the in-range keys k with lang(k), in '
@@ -160,7 +160,7 @@ PROPS = {
     },
     'C16': {
         'units': ['getkey'],
-        'kani': [],
+        'kani': ['getkey_take_while_last'],
         'level_text': 'Proof: FstRef::get_key_into (real body, one R11 hoist) and the Fst::get_key / get_key_into wrappers are verified '
                       'against lookup over the decoded graph: true with exactly the key of value v appended to the caller\'s buffer, false '
                       'only if no key has value v - including a final root with a non-zero output (the empty key).',
@@ -186,7 +186,7 @@ PROPS = {
     },
     'C07': {
         'units': ['cw', 'bytesio', 'encode', 'builder'],
-        'kani': [],
+        'kani': ['to_le_bytes_spec'],
         'level_text': 'Proof per function: CountingWriter::write re-establishes count == bytes accepted and checksum == CRC of the bytes '
                       'accepted for every behaviour the sink contract allows (any accepted prefix, any error); every emitting builder '
                       'function appends, through write_all, a byte string that is a spec function of builder state and arguments.',
@@ -197,7 +197,7 @@ PROPS = {
     },
     'C08': {
         'units': ['crc', 'cw', 'open', 'bytesio', 'builder'],
-        'kani': [],
+        'kani': ['read_le','to_le_bytes_spec','crc_byte_step_is_bitwise','masked_spec','table16_row0','table_xor_linear','table16_succ_00','table16_succ_01','table16_succ_02','table16_succ_03','table16_succ_04','table16_succ_05','table16_succ_06','table16_succ_07','table16_succ_08','table16_succ_09','table16_succ_10','table16_succ_11','table16_succ_12','table16_succ_13','table16_succ_14'],
         'own': {'builder': r'Builder::(into_inner|new_type|new)$', 'bytesio': r'io_write_u32_le|write_u32_le', 'open': r'verify|as_bytes|as_ref'},
         'level_text': 'Proof: crc32c_slice16 equals the bitwise CRC-32C fold for every length and chunking (table facts assumed, see note); '
                       'into_inner writes masked_crc of everything before it as the last 4 bytes; verify() returns Ok iff the stored word '
@@ -209,7 +209,7 @@ PROPS = {
     },
     'C11': {
         'units': ['cw', 'bytesio', 'encode', 'builder'],
-        'kani': [],
+        'kani': ['to_le_bytes_spec'],
         'own': {'builder': r'Builder::(into_inner|new_type|new|compile|compile_from|insert_output|insert|add)$'},
         'level_text': 'Proof: every writing function is verified against the sink model: it reports Ok only if every byte of its output '
                       'was accepted (sink\' == sink + expected bytes) and cannot panic; a failing write/flush propagates through `?`.',
@@ -220,7 +220,7 @@ PROPS = {
     },
     'C10': {
         'units': ['open', 'decode'],
-        'kani': [],
+        'kani': ['read_le','unpack_le','common_tables','find_input_scan'],
         'own': {'open': r'Fst::(new|verify|as_ref)|u64_to_usize|From'},  # decode: every obligation (the decoder is version-parametric)
         'level_text': 'Proof: Fst::new is verified generically over D: AsRef<[u8]> against per-version footer offsets written from '
                       'the format description: versions 1-3 with at least 32/36 bytes open with the footer fields at the '
@@ -235,7 +235,7 @@ PROPS = {
     },
     'C20': {
         'units': ['open', 'crc'],
-        'kani': [],
+        'kani': ['read_le','crc_byte_step_is_bitwise','table16_row0','table16_succ_00','table16_succ_01','table16_succ_02','table16_succ_03','table16_succ_04','table16_succ_05','table16_succ_06','table16_succ_07','table16_succ_08','table16_succ_09','table16_succ_10','table16_succ_11','table16_succ_12','table16_succ_13','table16_succ_14'],
         'scans': ['unsafe'],
         'level_text': 'Proof of totality: Verus discharges every slice-index, arithmetic and unwrap obligation of Fst::new for all byte '
                       'strings of all lengths, and of len/is_empty/size/fst_type/as_bytes/to_vec/verify on every value satisfying '
